@@ -27,7 +27,7 @@ VARIANTS = [
          [(GD, "    @property\n    def used_qubits(self):\n        yield all\n", "")],
          ("C13.3", "BusyGateDefinition:used_qubits"), P),
     fire("c13-all-marker-ignored",
-         [(UQ, "                if param is all:\n                    self.merge_into(indices, self.all_qubits)\n                else:\n                    self.merge_into(indices, self.visit(param, context=context))", "                if param is not all:\n                    self.merge_into(indices, self.visit(param, context=context))")],
+         [(UQ, "                if param is all:\n                    self.merge_into(indices, self._all_qubits())\n                else:\n                    self.merge_into(indices, self.visit(param, context=context))", "                if param is not all:\n                    self.merge_into(indices, self.visit(param, context=context))")],
          ("C13.3", "all-marker"), P),
     fire("c13-size-not-converted",
          [(UQ, "set(range(int(reg.size)))", "set(range(reg.size))")],
@@ -39,4 +39,12 @@ VARIANTS = [
            [(UQ, "            tgt |= src", "            tgt.update(src)")], P),
     silent("c13-isdisjoint",
            [(UQ, "            if disjoint and (tgt & src):", "            if disjoint and not tgt.isdisjoint(src):")], P),
+]
+
+UQ13 = "src/jaqalpaq/core/algorithm/used_qubit_visitor.py"
+VARIANTS += [
+    # reverting part of fix 28d77d7
+    fire("c13-subcircuit-block-implicit-gates-ignored",
+         [(UQ13, "        if obj.subcircuit:\n            # A subcircuit block prepares and measures every qubit\n            self.merge_into(indices, self._all_qubits())\n", "")],
+         ("C13.1", "visit_BlockStatement:subcircuit-implicit-gates"), ("C13",)),
 ]
